@@ -34,6 +34,7 @@ class ModelLog:
         self.script = []            # (time, op dict, outcome)
         self.gate_calls = []        # (gate id, part, result) predicate evaluations
         self.sched_calls = []       # (now, scheduler id, object name, time arg, state, dispatch serial)
+        self.refusals = []          # (now, device id) planned stops refused by a shutdown callback restoring at once
         self.cb_offsets = []        # (now, device id, offset) one-shot offsets requested from finish callbacks
         self.generated = []         # top-level generated parts
         self.leaves = []            # generated leaf parts, generation order
@@ -79,6 +80,24 @@ class ShutdownCb:
         if instrument.PROBING:
             return
         self.log.shutdowns.append((self.log.now(), self.dev_id, self.idx, is_failure, part, self.log.serial()))
+
+
+class RefuseCb:
+    """Workload callback: a shutdown callback that refuses every k-th planned stop by restoring the machine
+    at once (a zero-length stop)."""
+
+    def __init__(self, log, dev_id, every):
+        self.log, self.dev_id, self.every = log, dev_id, every
+        self.n = 0
+
+    def __call__(self, dev, is_failure, part):
+        if is_failure:
+            return
+        self.n += 1
+        if self.n % self.every == 0:
+            if not instrument.PROBING:
+                self.log.refusals.append((self.log.now(), self.dev_id, self.log.serial()))
+            dev.restore_functionality()
 
 
 class RestoredCb:
@@ -227,6 +246,15 @@ class ScriptAction:
                 sink = Sink(name=f'late_sink_{n}', upstream=[path])
                 w.extra.extend([member, path, sink])
                 out = path.name
+            elif kind == 'flag_waiting':
+                # the user edits, in place, a user attribute of every part that is waiting in a device's output
+                n = 0
+                for d in w.devs.values():
+                    o = getattr(d, '_output', None)
+                    if o is not None and hasattr(o, 'routing_history'):
+                        o.h_flag = not getattr(o, 'h_flag', False)
+                        n += 1
+                out = n
             elif kind == 'env_run':
                 # the user drives the public Environment directly between two simulate() calls
                 w.system.env.run(op['d'])
@@ -238,7 +266,10 @@ class ScriptAction:
                 # an asset with a value of its own created while the simulation is running
                 from simprocesd.model.factory_floor import Maintainer, PartHandler
                 n = len(w.extra)
-                if op.get('what') == 'handler':
+                if op.get('what') == 'processor':
+                    from simprocesd.model.factory_floor import PartProcessor as _PP
+                    a = _PP(name=f'late_processor_{n}', value=op['value'])
+                elif op.get('what') == 'handler':
                     a = PartHandler(name=f'late_handler_{n}', value=op['value'])
                 else:
                     a = Maintainer(name=f'late_maintainer_{n}', value=op['value'])
@@ -427,6 +458,8 @@ def build(spec, bus=None, script=True, system=None, known=None):
             for n in range(3):
                 d.add_shutdown_callback(ShutdownCb(log, i, n))
                 d.add_restored_callback(RestoredCb(log, i, n))
+            if it.get('refuse'):
+                d.add_shutdown_callback(RefuseCb(log, i, it['refuse']))
         elif k == 'buffer':
             d = Buffer(name=nm, upstream=ups, minimum_delay=it.get('delay', 0), capacity=it.get('cap'),
                        value=it.get('value', 0))
